@@ -1148,6 +1148,10 @@ def _check_concurrent(chk, impl, cases, replay):
                         v = judge(a, mm[0][0])
                     else:
                         v = next((x for x in (judge(y, mm[k][0]) for k, y in enumerate(a)) if x), None)
+                    exp = c.get("expect")
+                    if v is None and exp is not None and a != exp[ti][ci]:
+                        v = ("violation", "corpus witness %s: expected %s (thread %d, call %d)"
+                             % (c.get("id", "?"), exp[ti][ci], ti, ci))
                     if v and not failed:
                         failed = True
                         case = dict(c, sched=sc)
@@ -1788,15 +1792,15 @@ def gen_conc_cases(chk):
                 ks = kinds if thorough else [kinds[j % 3]]
                 for kind in ks:
                     specs = [{"kind": "rr", "quantum": 1}, {"kind": "rr", "quantum": 2},
-                             {"kind": "random", "seed": j, "count": 20 if thorough else 4}]
-                    if N <= (4 if thorough else 2):
+                             {"kind": "random", "seed": j, "count": 10 if thorough else 4}]
+                    if N <= (3 if thorough else 2):
                         specs.append({"kind": "single"})
                     for sp in specs:
                         out.append(conc_case(N, D, slack, kind, "hook", sp))
-    # line level (harness/sched.py): two threads, every single pre-emption (quick: every 2nd line)
+    # line level (harness/sched.py): two threads, every single pre-emption (quick: every 3rd line)
     for D, slack, kind in (((1, 0, "own"), (2, 0, "own"), (2, 1, "mixed"), (3, 0, "same"), (2, None, "mixed"))
                            if thorough else ((2, 0, "own"),)):
-        out.append(conc_case(2, D, slack, kind, "line", {"kind": "single", "stride": 1 if thorough else 2}))
+        out.append(conc_case(2, D, slack, kind, "line", {"kind": "single", "stride": 1 if thorough else 3}))
     # free-running threads (sampled schedules)
     for N, D in (((5, 6), (8, 4), (3, 7), (2, 6)) if thorough else ((5, 6), (8, 4))):
         out.append(conc_case(N, D, 0, "own", "free", {"kind": "free", "rounds": 5 if thorough else 3}))
@@ -1836,7 +1840,17 @@ def run(chk):
                 "(raising on None / missing key, first-call-only raising, never raising, unregistered name); seeded "
                 "random histories of 3..13 ops over layered graphs with 1..3 checkers of different limits on one "
                 "growing store, clock scripts and batches with repeats; non-trivial = not the first call of its "
-                "history and (>= 2 nodes visited or answered true); distinct = distinct (history, call index)")
+                "history and (>= 2 nodes visited or answered true); distinct = distinct (history, call index). "
+                "Concurrent calls (one evaluation = one call answer under one schedule, compared with a fresh checker "
+                "asked alone and with the model): 2..8 real threads on ONE checker over disjoint caveated chains where a "
+                "check needs k = depth + 1 visits and max_nodes is k, k + depth (less than the sum of two) or 10000, "
+                "constant clock; programmes: own query / the same query / repeated checks, batches with a non-derivable "
+                "triple, a context the predicates raise on; deterministic cooperative schedules whose stop points are "
+                "every clock read (per call and per visited node) and every predicate call: round robin with quantum 1 "
+                "and 2, seeded random, all single pre-emptions (2 threads; thorough <= 3); two threads under the "
+                "line-level scheduler harness/sched.py over rbacx/rebac/local.py with single pre-emptions before every "
+                "(quick: every 3rd) source line; a few rounds of free-running threads with yielding predicates (sampled "
+                "schedules); non-trivial = at least two threads ran and (>= 2 nodes visited or answered true)")
     chk.assumptions = [
         "subjects, relations, objects and caveat names are str; max_depth/max_nodes/deadline_ms are int",
         "a caveat predicate is a function of the context of the call (model: option bool per name); only "
@@ -1845,6 +1859,8 @@ def run(chk):
         "rule maps are dicts of dicts (or None) whose leaves are This/ComputedUserset/TupleToUserset/list; anything "
         "else is an ignored 'unknown' node",
         "time is read through time.perf_counter_ns only (scripted test-side)",
+        "concurrent family: controlled schedules pre-empt a thread only at test-side hooks (clock reads, predicate "
+        "calls) or, for two threads, before source lines of rbacx/rebac/local.py; free-running rounds sample schedules",
     ]
     corpus = load_corpus()
     chk.extra["corpus_witnesses"] = [c.get("id") for c in corpus]
